@@ -1,6 +1,7 @@
 import Driver.Proto
 import TonicModel.Model.WebClient
 import TonicModel.Model.WebCaller
+import TonicModel.Model.WebClientHints
 import TonicModel.Spec.GrpcWeb
 import TonicModel.Spec.Status
 namespace DriverC17
@@ -392,7 +393,7 @@ def callerVerdict (unary : Bool) (evs : List BodyEv) (obs : List String) (hdrs :
                 | none => "ok"
               | none => "ok"
 
-def handle (case obs : List String) : String × String :=
+def handleBase (case obs : List String) : String × String :=
   match case with
   | "cl" :: toks =>
     match parseHead toks with
@@ -510,5 +511,107 @@ where
     match obs.reverse with
     | n :: "ae" :: r => (nat? n).map (fun k => (r.reverse, k))
     | _ => none
+
+/-! ### further dimensions (audit aC17): other entry points / consumers (`clm`), histories (`cls`),
+hints of the inner and of the returned body (`clh`, `sth`) -/
+
+def splitSlash : List String → List (List String)
+  | [] => [[]]
+  | t :: r =>
+    match splitSlash r with
+    | [] => [[t]]
+    | seg :: segs => if t == "/" then [] :: seg :: segs else (t :: seg) :: segs
+
+/-- `… eos again <k> ae <n>` → `… eos ae <n>`, `k` -/
+def stripAgain (obs : List String) : List String × Option String :=
+  match obs.reverse with
+  | n :: "ae" :: k :: "again" :: r => ((n :: "ae" :: r).reverse, some k)
+  | _ => (obs, none)
+
+/-- the `q <e> <lower> <upper>` groups taken out of an observation -/
+def stripQ : List String → List String × List (String × String × String)
+  | [] => ([], [])
+  | t :: r =>
+    let (ts, qs) := stripQ r
+    if t == "q" then
+      match ts with
+      | e :: lo :: up :: ts' => (ts', (e, lo, up) :: qs)
+      | _ => (t :: ts, qs)
+    else (t :: ts, qs)
+
+def hintTriple (h : WebClient.Hints.Hint) : String × String × String :=
+  (if h.eos then "1" else "0", toString h.lower, match h.upper with | some u => toString u | none => "inf")
+
+def renderHint (h : WebClient.Hints.Hint) : List String :=
+  let (e, lo, up) := hintTriple h
+  ["q", e, lo, up]
+
+/-- `http_body`'s contract, on what was observed: (`is_end_stream() == true` only right before the
+`None`, `lower ≤ data bytes from here on` when the stream ends cleanly, `… ≤ upper` always) -/
+def hintsOk : List (String × String × String) → List Out → Bool → Bool × Bool
+  | (e, lo, up) :: qs, o :: os, clean =>
+    let n := (dataOf (o :: os)).length
+    let (a, b) := hintsOk qs os clean
+    (a && (e != "1" || o == .eos),
+     b && (match nat? lo with | some l => !clean || l ≤ n | none => false)
+       && (if up == "inf" then true else match nat? up with | some u => n ≤ u | none => false))
+  | _, _, _ => (true, true)
+
+def hintVerdict (withHead : Bool) (obs : List String) (qs : List (String × String × String)) : String :=
+  let rest := if withHead then (match parseHead obs with | some (_, r) => r | none => obs) else obs
+  match rest.reverse with
+  | _ :: "ae" :: fr =>
+    let frames := fr.reverse
+    let busy := frames.getLast? == some "busy" || frames.getLast? == some "hang" || frames.getLast? == some "panic"
+    if busy then "ok"   -- judged by the liveness clauses
+    else
+      match parseOuts frames with
+      | some o =>
+        let (a, b) := hintsOk qs o (o.getLast? == some .eos)
+        verdict [("one-hint-per-frame", qs.length == o.length),
+                 ("is-end-stream-only-before-the-end", a),
+                 ("size-hint-is-sound", b)]
+      | none => "fail:unreadable-observation"
+  | _ => "fail:unreadable-observation"
+
+def handle (case obs : List String) : String × String :=
+  match case with
+  | "clm" :: modes :: toks =>
+    let (obs', again) := stripAgain obs
+    let (m, v) := handleBase ("cl" :: toks) obs'
+    let wantsAgain := modes.toList.contains 'a'
+    let mt := m.splitOn " "
+    let model := if wantsAgain then
+        match mt.reverse with
+        | n :: "ae" :: "eos" :: r => join (n :: "ae" :: "3" :: "again" :: "eos" :: r).reverse
+        | _ => m
+      else m
+    -- the model answers with the observed tokens when they agree canonically: put `again` back
+    let model := if wantsAgain && again == some "3" && m == join obs' then join obs else model
+    (model, v)
+  | "cls" :: _sched :: toks =>
+    let segs := splitSlash toks
+    let osegs := splitSlash obs
+    let rs := (List.range segs.length).map (fun i => handleBase ("cl" :: segs.getD i []) (osegs.getD i []))
+    let model := String.intercalate " / " (rs.map Prod.fst)
+    let v := if osegs.length != segs.length then "fail:unreadable-observation" else firstFail (rs.map Prod.snd)
+    (model, v)
+  | "clh" :: bits :: toks =>
+    match nat? bits, parseHead toks with
+    | some bits, some (head?, evToks) =>
+      match parseEvs evToks with
+      | some evs =>
+        let (obs', qs) := stripQ obs
+        let (m, v) := handleBase ("cl" :: toks) obs'
+        let hm := WebClient.Hints.observeH (WebClient.Hints.outerHint bits) evs
+        let headToks := if head?.isSome then renderHead (respond (head?.getD {}) evs).1 else []
+        let exactLine := join (headToks ++ hm.flatMap (fun p => renderHint p.1 ++ renderOuts (canonOuts [p.2])) ++ ["ae", "0"])
+        let sameHints := qs == hm.map (fun p => hintTriple p.1)
+        let model := if m == join obs' && sameHints then join obs else exactLine
+        (model, firstFail [v, hintVerdict head?.isSome obs' qs])
+      | none => bad
+    | _, _ => bad
+  | "sth" :: _bits :: k :: toks => handleBase ("st" :: k :: toks) obs
+  | _ => handleBase case obs
 
 end DriverC17
